@@ -44,9 +44,10 @@ def TC.toW : TC α → W α
   | .gtLatest => .bin .gt (.ident .time) .latest
   | .eqLatest => .bin .eq (.ident .time) .latest
 
-/-- time conditions written with the order column on the right: `c < t`, `c <= t`, `c > t`, `c >= t`, `c = t` -/
+/-- the mirrored spellings of the time condition, order column on the right: `c < t`, `c <= t`, `c > t`, `c >= t`,
+`c = t`, `LATEST < t`, `LATEST = t` (together with `TC` these are all sixteen spellings of the nine classes) -/
 inductive RC (α : Type)
-  | lt (c : α) | le (c : α) | gt (c : α) | ge (c : α) | eq (c : α)
+  | lt (c : α) | le (c : α) | gt (c : α) | ge (c : α) | eq (c : α) | ltLatest | eqLatest
   deriving DecidableEq, Repr
 
 def RC.toW : RC α → W α
@@ -55,6 +56,8 @@ def RC.toW : RC α → W α
   | .gt c => .bin .gt (.const c) (.ident .time)
   | .ge c => .bin .ge (.const c) (.ident .time)
   | .eq c => .bin .eq (.const c) (.ident .time)
+  | .ltLatest => .bin .lt .latest (.ident .time)
+  | .eqLatest => .bin .eq .latest (.ident .time)
 
 /-- the same condition with the order column on the left -/
 def RC.mirror : RC α → TC α
@@ -63,6 +66,8 @@ def RC.mirror : RC α → TC α
   | .gt c => .lt c
   | .ge c => .le c
   | .eq c => .eq c
+  | .ltLatest => .gtLatest
+  | .eqLatest => .eqLatest
 
 /-- an AND-tree with exactly one leaf equal to the time condition `tf`, all other leaves partition filters -/
 def tcTree (nG : Nat) (tf : W α) : W α → Bool
@@ -163,6 +168,39 @@ def WindowSpec (n : Nat) (e : Env α) (nG : Nat) (tc : Option (TC α)) (w : Opti
   match tc.bind TC.before with
   | none => L = []
   | some bf => IsLastW n (candRows e nG tc w bf T) L
+
+/-! ## all sixteen spellings of the time condition, specified on the user's own WHERE -/
+
+/-- a spelling of the time condition: column first (`TC`) or mirrored (`RC`: constant / LATEST first) -/
+inductive TL (α : Type)
+  | fwd (tc : TC α)
+  | rev (rc : RC α)
+  deriving DecidableEq, Repr
+
+/-- the leaf as the user wrote it -/
+def TL.toW : TL α → W α
+  | .fwd tc => tc.toW
+  | .rev rc => rc.toW
+
+/-- what it means: one of the nine classes -/
+def TL.cls : TL α → TC α
+  | .fwd tc => tc
+  | .rev rc => rc.mirror
+
+/-- non-NULL order value ∧ every conjunct of the user's WHERE `w` other than the time leaf ∧ partition `e.p` -/
+def baseL (e : Env α) (nG : Nat) (tl : TL α) (w : W α) (r : Row α) : Bool :=
+  r.t.isSome && restSel e tl.toW w r && inPart e nG r
+
+def condRowsL (e : Env α) (nG : Nat) (tl : TL α) (w : W α) (T : List (Row α)) : List (Row α) :=
+  T.filter (fun r => baseL e nG tl w r && onTime tl.cls.cond r)
+
+def candRowsL (e : Env α) (nG : Nat) (tl : TL α) (w : W α) (bf : α → Bool) (T : List (Row α)) : List (Row α) :=
+  T.filter (fun r => baseL e nG tl w r && onTime bf r)
+
+def WindowSpecL (n : Nat) (e : Env α) (nG : Nat) (tl : TL α) (w : W α) (T L : List (Row α)) : Prop :=
+  match tl.cls.before with
+  | none => L = []
+  | some bf => IsLastW n (candRowsL e nG tl w bf T) L
 
 /-! ## T15.3: independent reading of "only allowed operators / only order and group columns" -/
 
